@@ -310,3 +310,21 @@ func (c *CachingCloser) Close() error {
 	c.Log.Add("close-end", c.Nm)
 	return nil
 }
+
+// RunningPP is a lazy component post-processor that is an (ordered) application runner as well: one
+// participant of the post-processor sequence and one of the runner sequence.
+type RunningPP struct {
+	processors.DefaultInstantiationAwareComponentPostProcessor
+	definition.LazyInitComponent
+	Nm  string
+	Ord int
+	Log *mon.Lifecycle
+}
+
+func (p *RunningPP) Naming() string { return p.Nm }
+func (p *RunningPP) Order() int     { return p.Ord }
+func (p *RunningPP) Bind(r *Run)    { p.Log = r.Log }
+func (p *RunningPP) Run() error {
+	p.Log.Add("run", p.Nm)
+	return nil
+}
